@@ -1,0 +1,46 @@
+//go:build verif
+
+// Contracts for the deductive verifier in /verif (govc), helper "cpc2" (C18, x/cpc part). This file contains no code: with
+// the build tag off it is not part of the package, with it on it adds nothing to the build.
+package cpc
+
+//@ import sdk "github.com/cosmos/cosmos-sdk/types"
+//@ import common "github.com/ethereum/go-ethereum/common"
+//@ import cpckeeper "github.com/EscanBE/evermint/v12/x/cpc/keeper"
+//@ import cpctypes "github.com/EscanBE/evermint/v12/x/cpc/types"
+//@ import stakingkeeper "github.com/cosmos/cosmos-sdk/x/staking/keeper"
+
+// ---------------------------------------------------------------------------------------------
+// genesis.go (C18). The x/cpc view of a store layer is the content of the module store (x/cpc/keeper contracts):
+//     params            the entry at key [1]
+//     registry          the entries at [2] ++ address        (type, name, typed metadata, disabled flag)
+//     denom index       the entries at [3] ++ denomination   (ERC-20 precompile address of a denomination)
+//     allowances        the entries at [4] ++ owner ++ spender
+// The exported GenesisState has three fields: the params and two booleans. "ExportGenesis determines the view" means: the view
+// can be read back from the export. The booleans can only say "re-deploy the ERC-20 precompile of the bond denomination" and
+// "re-deploy the staking precompile" (InitGenesis always re-deploys bech32), so the export determines the view only when the
+// store holds nothing but the params and the two fixed-address records: clause C18.cpc_export_determines_view FAILS on this
+// tree (finding F8, cpc part, docs/findings-cpc2.md, replayed): every ERC-20 precompile record, the denom index, every
+// allowance and every dynamic-address contract is dropped — and DeployErc20Native is exported as `false` unconditionally.
+// ---------------------------------------------------------------------------------------------
+
+//@ func ExportGenesis(ctx sdk.Context, k cpckeeper.Keeper) (gs cpctypes.GenesisState)
+//@   requires k.storeKey != nil && k.cdc != nil
+//@   modifies nothing
+//@   ensures[C18.cpc_export_params] gs.Params.ProtocolVersion == cpcParamsVersion(kvHas[kvId(layer(ctx), payload(k.storeKey))], kvVal[kvId(layer(ctx), payload(k.storeKey))])
+//@   ensures[C18.cpc_export_staking_flag] gs.DeployStakingContract == kvHas[kvId(layer(ctx), payload(k.storeKey))][metaKeyB(cpctypes.CpcStakingFixedAddress)]
+//@   ensures[C18.cpc_export_erc20_flag_constant] !gs.DeployErc20Native
+//@   ensures[C18.cpc_export_determines_view] forall key bytes :: kvHas[kvId(layer(ctx), payload(k.storeKey))][key] ==> (key == b1(1) || key == metaKeyB(cpctypes.CpcStakingFixedAddress) || key == metaKeyB(cpctypes.CpcBech32FixedAddress))
+
+// InitGenesis: the params are stored (a rejected params record panics); bech32 is always deployed at its fixed address, the
+// staking precompile exactly when the flag says so, each as a NEW record (an occupied address panics); nothing else of the
+// registry is written unless the ERC-20 flag is set.
+//@ func InitGenesis(ctx sdk.Context, k cpckeeper.Keeper, stakingKeeper stakingkeeper.Keeper, data cpctypes.GenesisState)
+//@   requires k.storeKey != nil && k.cdc != nil && k.bankKeeper != nil
+//@   modifies kvHas[kvId(layer(ctx), payload(k.storeKey))], kvVal[kvId(layer(ctx), payload(k.storeKey))], evlog[payload(ctx.EventManager())], acctExists[layer(ctx)], acctSeq[layer(ctx)], authVersion[layer(ctx)]
+//@   ensures[C18.cpc_init_params] cpcParamsVersion(kvHas[kvId(layer(ctx), payload(k.storeKey))], kvVal[kvId(layer(ctx), payload(k.storeKey))]) == data.Params.ProtocolVersion
+//@   ensures[C18.cpc_init_bech32_deployed] kvHas[kvId(layer(ctx), payload(k.storeKey))][metaKeyB(cpctypes.CpcBech32FixedAddress)] && !old(kvHas[kvId(layer(ctx), payload(k.storeKey))][metaKeyB(cpctypes.CpcBech32FixedAddress)])
+//@   ensures[C18.cpc_init_staking_as_flagged] data.DeployStakingContract ==> (kvHas[kvId(layer(ctx), payload(k.storeKey))][metaKeyB(cpctypes.CpcStakingFixedAddress)] && !old(kvHas[kvId(layer(ctx), payload(k.storeKey))][metaKeyB(cpctypes.CpcStakingFixedAddress)]))
+//@   ensures[C18.cpc_init_no_staking_unless_flagged] (!data.DeployStakingContract && !data.DeployErc20Native) ==> kvHas[kvId(layer(ctx), payload(k.storeKey))][metaKeyB(cpctypes.CpcStakingFixedAddress)] == old(kvHas[kvId(layer(ctx), payload(k.storeKey))][metaKeyB(cpctypes.CpcStakingFixedAddress)])
+//@   ensures[C18.cpc_init_frame_without_erc20] !data.DeployErc20Native ==> (forall key bytes :: (key != b1(1) && key != metaKeyB(cpctypes.CpcStakingFixedAddress) && key != metaKeyB(cpctypes.CpcBech32FixedAddress)) ==> (kvHas[kvId(layer(ctx), payload(k.storeKey))][key] == old(kvHas[kvId(layer(ctx), payload(k.storeKey))][key]) && kvVal[kvId(layer(ctx), payload(k.storeKey))][key] == old(kvVal[kvId(layer(ctx), payload(k.storeKey))][key])))
+//@   panics any
